@@ -23,7 +23,9 @@ WStr(n) == UNION {[1..k -> WTok] : k \in 0..n}
 Few == {<<>>, <<T("al", "r")>>, <<T("eq", "r")>>, <<T("semi", "U"), T("u3", "L")>>}
 Ck(n, v, q) == [n |-> n, v |-> v, q |-> q]
 FN(f) == <<SymTok("name:" \o f, "r")>>
-Extra == {Ck(FN("zz"), <<>>, "n"), Ck(FN("_ga"), <<T("al", "r"), T("pct", "U")>>, "y")}
+\* (the third and fourth: a cookie of some other application whose escapes do not form UTF-8 -- unknown to the target, so ignored like the others)
+Extra == {Ck(FN("zz"), <<>>, "n"), Ck(FN("_ga"), <<T("al", "r"), T("pct", "U")>>, "y"),
+          Ck(FN("legacy"), <<SymTok("lit:caf%E9", "r")>>, "n"), Ck(FN("lg2"), <<SymTok("lit:%FF%FE", "r")>>, "y")}
 InsertAt(ps, k, x) == SubSeq(ps, 1, k) \o <<x>> \o SubSeq(ps, k + 1, Len(ps))
 WithExtras(S) == S \cup UNION {{InsertAt(j, k, x) : k \in 0..Len(j), x \in Extra} : j \in S}
 QS == {"y", "n"}
